@@ -184,7 +184,7 @@ pub fn run(cfg: &Cfg) -> (&'static str, Report, String, String) {
     let nrand = cfg.by(2, 300, 2000);
     rep.merge(par_for(cfg, nrand, |i, r| {
         let mut rng = Rng::new(cfg.seed.wrapping_mul(31_337).wrapping_add(i as u64));
-        let s = random_string(&mut rng, &crate::c03::WIDE, cfg.by(8, 30, 40));
+        let s = random_string(&mut rng, &crate::c03::WIDE, if i % 8 == 7 { cfg.by(20, 150, 300) } else { cfg.by(8, 30, 40) });
         let steps = (s.chars().count() + 2).min(60);
         let masks: Vec<u64> = (0..cfg.by(4, 50, 200)).map(|_| rng.next() & ((1u64 << steps) - 1)).collect();
         check_masks(r, &s, &masks, steps);
